@@ -13,7 +13,9 @@ EXTENDS Session, BigFix, Json, IOUtils
 
 Data   == JsonDeserialize(IOEnv.TRACE_FILE)
 Traces == Data.traces
-TrPoints == {1, 2}
+TrPoints == {1, 2, 3}
+TrSouth == {1, 3}
+TrNear == {<<1, 3>>, <<3, 1>>}
 VARIABLES tid, l, dead, first
 tvars == <<vars, tid, l, dead, first>>
 T == Traces[tid]
@@ -23,6 +25,7 @@ Mm4 == Dec(40, 1)
 DegTol == DivSmall(Mm4, 109900)           \* 4 mm in degrees of latitude (largest angle: never a false alarm)
 
 Class(k) == CASE k \in {"geo", "llh"} -> "G" [] k \in {"cart", "xyz"} -> "X" [] k \in {"tm", "grid"} -> "T" [] k = "line" -> "L"
+              [] k = "gline" -> "GL"
 Key(v) == <<Class(v.k), v.p, v.f, v.foot>>
 RECURSIVE Find(_, _, _)
 Find(al, key, i) == IF i > Len(al) THEN <<>> ELSE IF al[i][1] = key THEN <<al[i][2]>> ELSE Find(al, key, i + 1)
@@ -33,8 +36,10 @@ Close(c, foot, o, q) ==
                   /\ Leq(Mul(Abs(Sub(J(o.lon), J(q.lon))), J(q.cos)), DegTol)
                   /\ (foot \/ ~o.hasht \/ ~q.hasht \/ Within(J(o.h), J(q.h), Mm4))
     [] c = "X" -> Within(J(o.x), J(q.x), Mm4) /\ Within(J(o.y), J(q.y), Mm4) /\ Within(J(o.z), J(q.z), Mm4)
-    [] c = "T" -> o.zone = q.zone /\ Within(J(o.e), J(q.e), Mm4) /\ Within(J(o.n_), J(q.n_), Mm4)
+    \* grid coordinates are comparable within one zone only (the grid direct computation answers in the first point's zone)
+    [] c = "T" -> o.zone # q.zone \/ (Within(J(o.e), J(q.e), Mm4) /\ Within(J(o.n_), J(q.n_), Mm4))
     [] c = "L" -> Within(J(o.s), J(q.s), Mm4)
+    [] c = "GL" -> Within(J(o.s), J(q.s), Mm4)
 
 \* the action of Session the event claims, applied to the specification's workspace
 Act(ev) == CASE ev.a = "NewGeo" -> NewGeo(ev.i, ev.n) [] ev.a = "GeoCart" -> GeoCart(ev.i) [] ev.a = "CartGeo" -> CartGeo(ev.i, ev.n)
@@ -43,6 +48,9 @@ Act(ev) == CASE ev.a = "NewGeo" -> NewGeo(ev.i, ev.n) [] ev.a = "GeoCart" -> Geo
              [] ev.a = "F_geo2grid" -> F_geo2grid(ev.i) [] ev.a = "F_grid2geo" -> F_grid2geo(ev.i)
              [] ev.a = "Inverse" -> Inverse(ev.i, ev.j) [] ev.a = "Direct" -> Direct(ev.i, ev.j)
              [] ev.a = "To94" -> To94(ev.i) [] ev.a = "To2020" -> To2020(ev.i)
+             [] ev.a = "ToAtrf" -> ToAtrf(ev.i) [] ev.a = "FromAtrf" -> FromAtrf(ev.i)
+             [] ev.a = "MgaTo94" -> MgaTo94(ev.i) [] ev.a = "MgaTo2020" -> MgaTo2020(ev.i)
+             [] ev.a = "GridInverse" -> GridInverse(ev.i, ev.j) [] ev.a = "GridDirect" -> GridDirect(ev.i, ev.j)
 
 TraceInit == tid \in 1..Len(Traces) /\ l = 1 /\ dead = FALSE /\ first = <<>> /\ ws = <<>> /\ hist = <<>>
 
